@@ -8,6 +8,7 @@ import (
 	"errors"
 	"fmt"
 	"io"
+	"net/http"
 	"net/url"
 	"strings"
 	"time"
@@ -159,7 +160,7 @@ func (rs *s3ClientStorage) PutBucketVersioningConfiguration(ctx context.Context,
 		status = types.BucketVersioningStatusEnabled
 	}
 	_, err := rs.s3Client.PutBucketVersioning(ctx, &s3.PutBucketVersioningInput{Bucket: aws.String(bucketName.String()), VersioningConfiguration: &types.VersioningConfiguration{Status: status}})
-	return err
+	return translateS3Error(err)
 }
 
 func (rs *s3ClientStorage) GetBucketNotificationConfiguration(ctx context.Context, bucketName storage.BucketName) (*storage.BucketNotificationConfiguration, error) {
@@ -309,7 +310,7 @@ func (rs *s3ClientStorage) ListObjects(ctx context.Context, bucketName storage.B
 		return nil, storage.ErrNoSuchBucket
 	}
 	if err != nil {
-		return nil, err
+		return nil, translateS3Error(err)
 	}
 	objects := sliceutils.Map(func(object types.Object) storage.Object {
 		// S3 list responses only carry the checksum type and algorithm, not
@@ -350,7 +351,7 @@ func (rs *s3ClientStorage) ListObjectVersions(ctx context.Context, bucketName st
 		MaxKeys:         aws.Int32(opts.MaxKeys),
 	})
 	if err != nil {
-		return nil, err
+		return nil, translateS3Error(err)
 	}
 
 	versions := []storage.ObjectVersion{}
@@ -389,7 +390,7 @@ func (rs *s3ClientStorage) HeadObject(ctx context.Context, bucketName storage.Bu
 		return nil, rs.objectNotFoundError(ctx, bucketName, err)
 	}
 	if err != nil {
-		return nil, err
+		return nil, translateS3Error(err)
 	}
 	var userMetadata map[string]string
 	if len(headObjectResult.Metadata) > 0 {
@@ -491,7 +492,7 @@ func (rs *s3ClientStorage) GetObject(ctx context.Context, bucketName storage.Buc
 			for _, r := range readers {
 				r.Close()
 			}
-			return nil, nil, err
+			return nil, nil, translateS3Error(err)
 		}
 		readers = append(readers, getObjectResult.Body)
 	}
@@ -618,7 +619,7 @@ func (rs *s3ClientStorage) PutObject(ctx context.Context, bucketName storage.Buc
 		if errors.As(err, &apiErr) && apiErr.ErrorCode() == "PreconditionFailed" {
 			return nil, storage.ErrPreconditionFailed
 		}
-		return nil, err
+		return nil, translateS3Error(err)
 	}
 
 	return &storage.PutObjectResult{
@@ -655,6 +656,45 @@ func copySourceValue(srcBucket storage.BucketName, srcKey storage.ObjectKey, sou
 	return value
 }
 
+// s3ErrorValues are the storage error values whose text is the S3 error code
+// a server answers for them.
+var s3ErrorValues = []error{
+	storage.ErrNoSuchBucket, storage.ErrBucketAlreadyExists, storage.ErrBucketNotEmpty, storage.ErrNoSuchKey,
+	storage.ErrBadDigest, storage.ErrInvalidPart, storage.ErrInvalidPartOrder, storage.ErrEntityTooLarge,
+	storage.ErrPreconditionFailed, storage.ErrNotModified, storage.ErrInvalidRange, storage.ErrTooManyParts,
+	storage.ErrInvalidWriteOffset, storage.ErrInvalidStorageClass, storage.ErrInvalidTag, storage.ErrMetadataTooLarge,
+}
+
+// translateS3Error maps an SDK error onto the storage package's error value
+// for its S3 error code, so that callers can compare errors as they do with a
+// local storage. Errors without such a value are returned unchanged.
+func translateS3Error(err error) error {
+	var apiErr smithy.APIError
+	if err == nil || !errors.As(err, &apiErr) {
+		return err
+	}
+	code := apiErr.ErrorCode()
+	for _, value := range s3ErrorValues {
+		if value.Error() == code {
+			return value
+		}
+	}
+	if code == "NotImplemented" {
+		return storage.ErrNotImplemented
+	}
+	// Answers without an error document: a delete marker is announced by headers.
+	var responseError *smithyhttp.ResponseError
+	if (code == "NotFound" || code == "MethodNotAllowed") && errors.As(err, &responseError) && responseError.Response != nil && responseError.Response.Header.Get("x-amz-delete-marker") == "true" {
+		versionID := responseError.Response.Header.Get("x-amz-version-id")
+		if code == "NotFound" {
+			return &storage.CurrentDeleteMarkerError{VersionID: versionID}
+		}
+		lastModified, _ := http.ParseTime(responseError.Response.Header.Get("Last-Modified"))
+		return &storage.VersionDeleteMarkerMethodNotAllowedError{VersionID: versionID, LastModified: lastModified}
+	}
+	return err
+}
+
 func translateS3CopyError(err error) error {
 	var apiErr smithy.APIError
 	if errors.As(err, &apiErr) {
@@ -675,7 +715,7 @@ func translateS3CopyError(err error) error {
 	if errors.As(err, &noSuchKeyError) {
 		return storage.ErrNoSuchKey
 	}
-	return err
+	return translateS3Error(err)
 }
 
 func (rs *s3ClientStorage) CopyObject(ctx context.Context, srcBucket storage.BucketName, srcKey storage.ObjectKey, dstBucket storage.BucketName, dstKey storage.ObjectKey, opts *storage.CopyObjectOptions) (*storage.CopyObjectResult, error) {
@@ -800,7 +840,7 @@ func (rs *s3ClientStorage) DeleteObject(ctx context.Context, bucketName storage.
 		return nil, storage.ErrNoSuchBucket
 	}
 	if err != nil {
-		return nil, err
+		return nil, translateS3Error(err)
 	}
 	return &storage.DeleteObjectResult{VersionID: result.VersionId, IsDeleteMarker: aws.ToBool(result.DeleteMarker)}, nil
 }
@@ -831,7 +871,7 @@ func (rs *s3ClientStorage) DeleteObjects(ctx context.Context, bucketName storage
 		return nil, storage.ErrNoSuchBucket
 	}
 	if err != nil {
-		return nil, err
+		return nil, translateS3Error(err)
 	}
 
 	result := &storage.DeleteObjectsResult{
@@ -900,7 +940,7 @@ func (rs *s3ClientStorage) CreateMultipartUpload(ctx context.Context, bucketName
 		return nil, storage.ErrNoSuchBucket
 	}
 	if err != nil {
-		return nil, err
+		return nil, translateS3Error(err)
 	}
 	return &storage.InitiateMultipartUploadResult{
 		UploadId: storage.MustNewUploadId(*initiateMultipartUploadResult.UploadId),
@@ -933,7 +973,7 @@ func (rs *s3ClientStorage) UploadPart(ctx context.Context, bucketName storage.Bu
 		return nil, storage.ErrNoSuchBucket
 	}
 	if err != nil {
-		return nil, err
+		return nil, translateS3Error(err)
 	}
 	return &storage.UploadPartResult{
 		ETag:              *uploadPartResult.ETag,
@@ -1037,7 +1077,7 @@ func (rs *s3ClientStorage) CompleteMultipartUpload(ctx context.Context, bucketNa
 		return nil, storage.ErrNoSuchBucket
 	}
 	if err != nil {
-		return nil, err
+		return nil, translateS3Error(err)
 	}
 	return &storage.CompleteMultipartUploadResult{
 		Location:          *completeMultipartUploadResult.Location,
@@ -1066,7 +1106,7 @@ func (rs *s3ClientStorage) AbortMultipartUpload(ctx context.Context, bucketName 
 		return storage.ErrNoSuchBucket
 	}
 	if err != nil {
-		return err
+		return translateS3Error(err)
 	}
 	return nil
 }
@@ -1088,7 +1128,7 @@ func (rs *s3ClientStorage) ListMultipartUploads(ctx context.Context, bucketName 
 		return nil, storage.ErrNoSuchBucket
 	}
 	if err != nil {
-		return nil, err
+		return nil, translateS3Error(err)
 	}
 
 	uploads := sliceutils.Map(func(upload types.MultipartUpload) storage.Upload {
@@ -1134,7 +1174,7 @@ func (rs *s3ClientStorage) ListParts(ctx context.Context, bucketName storage.Buc
 		return nil, storage.ErrNoSuchBucket
 	}
 	if err != nil {
-		return nil, err
+		return nil, translateS3Error(err)
 	}
 	return &storage.ListPartsResult{
 		BucketName:           storage.MustNewBucketName(*listPartsResult.Bucket),
@@ -1656,7 +1696,7 @@ func (rs *s3ClientStorage) GetObjectTagging(ctx context.Context, bucketName stor
 		return nil, storage.ErrNoSuchKey
 	}
 	if err != nil {
-		return nil, err
+		return nil, translateS3Error(err)
 	}
 
 	tags := map[string]string{}
@@ -1692,7 +1732,7 @@ func (rs *s3ClientStorage) PutObjectTagging(ctx context.Context, bucketName stor
 		return storage.ErrNoSuchKey
 	}
 	if err != nil {
-		return err
+		return translateS3Error(err)
 	}
 	return nil
 }
@@ -1714,7 +1754,7 @@ func (rs *s3ClientStorage) DeleteObjectTagging(ctx context.Context, bucketName s
 		return storage.ErrNoSuchKey
 	}
 	if err != nil {
-		return err
+		return translateS3Error(err)
 	}
 	return nil
 }
